@@ -491,6 +491,8 @@ def replay(case: dict, driver: str = DEFAULT_DRIVER) -> dict:
         detail = ""
     except RuntimeError as e:
         m, detail = None, str(e)
+    if case["op"] == "normalize" and not _float_exact([Fraction(int(a), int(b)) for a, b in case["p"]]):
+        detail = "NOTE: input not exactly representable / intermediates round in doubles: model (exact rationals) and impl may differ by rounding. " + detail
     o = oracle(case)
     return {"model": m, "impl": i, "oracle_ok": None if o is None else bool(o[1]), "detail": detail or ("" if o is None else "%s: %s" % (o[0], json.dumps(o[2], default=str)[:300]))}
 
